@@ -280,7 +280,7 @@ inline constexpr void Conversion<Unit::Force, Unit::Force::Pound>::ToStandard(
 }
 
 template <typename NumericType>
-inline const std::map<Unit::Force, std::function<void(NumericType* values, const std::size_t size)>>
+inline const ConversionTable<Unit::Force, NumericType>
     MapOfConversionsFromStandard<Unit::Force, NumericType>{
       {Unit::Force::Newton,
        Conversions<Unit::Force,                           Unit::Force::Newton>::FromStandard<NumericType>     },
@@ -301,8 +301,7 @@ inline const std::map<Unit::Force, std::function<void(NumericType* values, const
 };
 
 template <typename NumericType>
-inline const std::map<Unit::Force,
-                      std::function<void(NumericType* const values, const std::size_t size)>>
+inline const ConversionTable<Unit::Force, NumericType>
     MapOfConversionsToStandard<Unit::Force, NumericType>{
       {Unit::Force::Newton,      Conversions<Unit::Force, Unit::Force::Newton>::ToStandard<NumericType>     },
       {Unit::Force::Kilonewton,
